@@ -46,8 +46,9 @@ class Validator:
 
 
 class Interleaver:
-    def __init__(self, sim, main_code, val_code, validators, weights):
+    def __init__(self, sim, main_code, val_code, validators, weights, factory=None):
         self.sim = sim
+        self.factory = factory
         self.main_code = main_code
         self.val_code = val_code
         self.vals = validators
@@ -109,6 +110,24 @@ class Interleaver:
 
     def main_boundary(self, offset):
         self.boundaries += 1
+        if self.weights.get("sweep") and self.factory is not None:
+            # sweep style: one fresh validation at EVERY bytecode boundary of the refresh, each run to its end
+            # (every single-validation placement of this refresh is covered; no draw is made)
+            v = self.factory(len(self.vals))
+            self.vals.append(v)
+            while not v.done:
+                self._step(v)
+            return
+        at = self.weights.get("at")
+        if at is not None:
+            # placement style: validation i starts at a given bytecode boundary of the refresh and runs to its
+            # end undisturbed (uniform over the whole refresh, so late windows are reached as often as early ones)
+            for v in self.vals:
+                if not v.done and not v.started and at[v.idx % len(at)] <= self.boundaries:
+                    self.trace.append((self.boundaries, offset, v.idx))
+                    while not v.done:
+                        self._step(v)
+            return
         while True:
             live = [v for v in self.vals if not v.done]
             if not live:
